@@ -22,6 +22,8 @@ import Mathlib.Data.Matrix.Mul
 import Aegean.Proofs.C04Real
 import Aegean.Proofs.C04Index
 import Aegean.Proofs.C04Hand
+import Aegean.Proofs.C04Fisher
+import Aegean.Proofs.C04Bridge
 
 set_option linter.unusedVariables false
 set_option linter.unusedSimpArgs false
@@ -326,6 +328,159 @@ theorem whitening_consistent (M : Matrix n m ℝ) (errs : m → ℝ) (B Cinv : M
   simp only [Matrix.mul_assoc]
 
 end Whitening
+
+/-! ### The executable `lmfitJac` is the matrix-level `lmfitJacM`  (bridge)
+
+  `toM rows n m i j = rows[i][j]`.  With it the whitening statement and everything about the
+  Fisher matrix below is about the list-level definitions that the driver executes. -/
+
+section Bridge
+open Aegean.C04Bridge Aegean.C04Fisher
+
+/-- `errs` as a function of the pixel index (`None` divides by nothing, i.e. by 1) -/
+def errsFun (errs : Option (List ℝ)) (m : ℕ) : Fin m → ℝ :=
+  fun j => match errs with | some e => e.getD j 0 | none => 1
+
+/-- the rows produced by the Jacobian loop form an `nfree × npix` rectangle -/
+theorem jacRows_rect (D : Derivs ℝ) (pix : List (ℝ × ℝ)) (comps : List (Comp ℝ × Vary)) :
+    Rect (jacRows D pix comps) (nfree (comps.map (·.2))) pix.length := by
+  refine ⟨row_count D pix comps, ?_⟩
+  intro r hr
+  unfold jacRows at hr
+  rw [jacLoop_eq, List.nil_append] at hr
+  induction comps with
+  | nil => simp [rowsSpec] at hr
+  | cons cv rest ih =>
+    obtain ⟨c, v⟩ := cv
+    simp only [rowsSpec, List.mem_append, List.mem_map] at hr
+    rcases hr with ⟨p, _, rfl⟩ | h
+    · simp [Derivs.row]
+    · exact ih h
+
+/-- **lmfitJac_bridge**: entry by entry, the list-level `lmfit_jacobian` model equals the matrix
+    expression `(M / errs · B)ᵀ`, for rectangular input of any size, `errs` none or a vector
+    (a scalar is the constant vector), `B` none or a square matrix -/
+theorem lmfitJac_bridge (rows : List (List ℝ)) (n m : ℕ) (errs : Option (List ℝ))
+    (B : Option (List (List ℝ))) (hr : Rect rows n m)
+    (he : ∀ e, errs = some e → e.length = m) (hb : ∀ b, B = some b → Rect b m m) :
+    toM (lmfitJac rows m errs B) m n
+      = lmfitJacM (toM rows n m) (errsFun errs m) (B.map (fun b => toM b m m)) := by
+  have hnone : toM rows n m = Matrix.of fun k j => toM rows n m k j / errsFun none m j := by
+    ext k j; simp [errsFun]
+  cases errs with
+  | none =>
+    cases B with
+    | none =>
+      simp only [lmfitJac, Option.map_none, lmfitJacM]
+      rw [toM_transpose _ n m hr.1, ← hnone]
+    | some b =>
+      simp only [lmfitJac, Option.map_some, lmfitJacM]
+      rw [toM_transpose _ n m (by rw [matMul_length]; exact hr.1), toM_matMul _ b n m hr (hb b rfl), ← hnone]
+  | some e =>
+    have hrect := divErrs_rect rows e n m hr (he e rfl)
+    have hM : toM (divErrs rows e) n m = Matrix.of fun k j => toM rows n m k j / errsFun (some e) m j := by
+      rw [toM_divErrs rows e n m hr (he e rfl)]; rfl
+    cases B with
+    | none =>
+      simp only [lmfitJac, Option.map_none, lmfitJacM]
+      rw [toM_transpose _ n m hrect.1, hM]
+    | some b =>
+      simp only [lmfitJac, Option.map_some, lmfitJacM]
+      rw [toM_transpose _ n m (by rw [matMul_length]; exact hrect.1), toM_matMul _ b n m hrect (hb b rfl), hM]
+
+/-- **whitening_consistent_exec**: the whitening statement for the executable definition: with
+    `B·Bᵀ = C⁻¹`, `JᵀJ` of the B branch equals `Jᵀ C⁻¹ J` of the C branch, `J` computed by `lmfitJac` -/
+theorem whitening_consistent_exec (rows : List (List ℝ)) (n m : ℕ) (errs : Option (List ℝ))
+    (b : List (List ℝ)) (Cinv : Matrix (Fin m) (Fin m) ℝ) (hr : Rect rows n m)
+    (he : ∀ e, errs = some e → e.length = m) (hb : Rect b m m)
+    (hB : toM b m m * Matrix.transpose (toM b m m) = Cinv) :
+    Matrix.transpose (toM (lmfitJac rows m errs (some b)) m n) * toM (lmfitJac rows m errs (some b)) m n
+      = Matrix.transpose (toM (lmfitJac rows m errs none) m n) * Cinv * toM (lmfitJac rows m errs none) m n := by
+  rw [lmfitJac_bridge rows n m errs (some b) hr he (fun b' h => by cases h; exact hb),
+    lmfitJac_bridge rows n m errs none hr he (fun b' h => by cases h)]
+  exact whitening_consistent (toM rows n m) (errsFun errs m) (toM b m m) Cinv hB
+
+end Bridge
+
+/-! ### The Fisher matrix and `onesigma` of `covar_errors`
+
+  `covar = Jᵀ·J` (or `Jᵀ·C⁻¹·J`), `onesigma = sqrt(diag(inv(covar)))` with `J = lmfitJac …`. -/
+
+section Fisher
+open Aegean.C04Bridge Aegean.C04Fisher
+
+/-- the whitened Jacobian `A` (free parameters × pixels) whose transpose `covar_errors` calls `J` -/
+noncomputable def whitened {n m : ℕ} (M : Matrix (Fin n) (Fin m) ℝ) (e : Fin m → ℝ)
+    (B : Option (Matrix (Fin m) (Fin m) ℝ)) : Matrix (Fin n) (Fin m) ℝ :=
+  match B with
+  | some b => (Matrix.of fun k j => M k j / e j) * b
+  | none => Matrix.of fun k j => M k j / e j
+
+/-- **covar_is_fisher**: `np.transpose(J).dot(J)` computed from the executable `lmfitJac` is the
+    Gram matrix `A·Aᵀ` of the whitened derivative rows (for scalar errs: `M·Mᵀ/errs²`, see
+    `Aegean.C04Fisher.fisher_scalar_errs`) -/
+theorem covar_is_fisher (rows : List (List ℝ)) (n m : ℕ) (errs : Option (List ℝ))
+    (B : Option (List (List ℝ))) (hr : Rect rows n m)
+    (he : ∀ e, errs = some e → e.length = m) (hb : ∀ b, B = some b → Rect b m m) :
+    Matrix.transpose (toM (lmfitJac rows m errs B) m n) * toM (lmfitJac rows m errs B) m n
+      = fisher (whitened (toM rows n m) (errsFun errs m) (B.map (fun b => toM b m m))) := by
+  rw [lmfitJac_bridge rows n m errs B hr he hb]
+  cases B <;> simp [lmfitJacM, whitened, fisher]
+
+/-- **covar_psd_pd**: `covar` is symmetric positive semidefinite; it is positive definite exactly
+    when the whitened derivative rows of the free parameters are linearly independent as
+    functions on the unmasked pixels; and then every `onesigma` entry is the square root of a
+    positive diagonal entry of the inverse, hence a positive real. -/
+theorem covar_psd_pd {n m : ℕ} (A : Matrix (Fin n) (Fin m) ℝ) :
+    Matrix.transpose (fisher A) = fisher A ∧ (fisher A).PosSemidef ∧
+      ((fisher A).PosDef ↔ LinearIndependent ℝ A.row) ∧
+      (LinearIndependent ℝ A.row → IsUnit (fisher A) ∧ ∀ i, 0 < onesigma (fisher A) i) :=
+  ⟨fisher_symm A, fisher_posSemidef A, fisher_posDef_iff A,
+   fun h => ⟨fisher_invertible A h, fun i => (onesigma_pos A h i).2⟩⟩
+
+/-- the regenerated theta entry vanishes identically for a circular component (`sx = sy`):
+    the model does not depend on theta there -/
+theorem dmdtheta_circular (x y amp xo yo s theta : ℝ) (hs : s ≠ 0) :
+    dmdtheta x y amp xo yo s s theta = 0 := by
+  rw [← dmdtheta_eq_canon x y amp xo yo s s theta hs hs]
+  unfold D_theta
+  simp
+
+/-- **circular_component_singular**: if some component has `sx = sy` and a free theta, the
+    row of the Jacobian for that theta (row `rank(i, theta)`) is identically zero on every
+    pixel, so — for any `errs`, with or without `B` — the Fisher matrix is singular: its
+    determinant is 0, it is not positive definite, and Mathlib's inverse is the junk value 0.
+    (`scipy.linalg.inv` raises `LinAlgError`; `covar_errors` then takes its `except` branch and
+    gives *every* free parameter of the island the marker -2.) -/
+theorem circular_component_singular (pix : List (ℝ × ℝ)) (comps : List (Comp ℝ × Vary)) (i : Nat)
+    (h : i < comps.length) (hv : comps[i].2 .theta = true)
+    (hc : comps[i].1.sx = comps[i].1.sy) (hs : comps[i].1.sx ≠ 0)
+    (e : Fin pix.length → ℝ) (B : Option (Matrix (Fin pix.length) (Fin pix.length) ℝ)) :
+    let A := whitened (toM (jacRows genDerivs pix comps) (nfree (comps.map (·.2))) pix.length) e B
+    (fisher A).det = 0 ∧ ¬ (fisher A).PosDef ∧ (fisher A)⁻¹ = 0 := by
+  intro A
+  have hlen : i < (comps.map (fun cv => cv.2)).length := by simpa using h
+  have hv' : ((List.map (fun cv : Comp ℝ × Vary => cv.2) comps)[i]'hlen) Par.theta = true := by simpa using hv
+  let k : Fin (nfree (comps.map (·.2))) := ⟨rank (comps.map (·.2)) i .theta, rank_lt _ i .theta hlen hv'⟩
+  have hrow0 : ∀ j, toM (jacRows genDerivs pix comps) (nfree (comps.map (·.2))) pix.length k j = 0 := by
+    intro j
+    have hri := row_index genDerivs pix comps i .theta h hv
+    have hget : (jacRows genDerivs pix comps).getD k [] = genDerivs.row pix comps[i].1 .theta := by
+      rw [List.getD_eq_getElem?_getD, hri]; rfl
+    simp only [toM, hget, Derivs.row]
+    rw [getD_map pix _ j 0 (0, 0) j.2]
+    simp only [Derivs.entry, genDerivs]
+    rw [← hc]
+    exact dmdtheta_circular _ _ _ _ _ _ _ hs
+  have hA0 : ∀ j, A k j = 0 := by
+    intro j
+    cases B with
+    | none => simp [A, whitened, hrow0]
+    | some b => simp [A, whitened, Matrix.mul_apply, hrow0]
+  exact ⟨(fisher_singular_of_zero_row A k hA0).1, (fisher_singular_of_zero_row A k hA0).2.1,
+    fisher_inv_junk_of_zero_row A k hA0⟩
+
+end Fisher
 
 /-! ### Non-vacuity and the negation witness for the pinned loop -/
 
